@@ -14,7 +14,10 @@ import (
 
 	"github.com/bitcoin-sv/block-headers-service/config"
 	"github.com/bitcoin-sv/block-headers-service/transports/p2p/addrmgr"
+	"github.com/bitcoin-sv/block-headers-service/internal/chaincfg"
+	"github.com/bitcoin-sv/block-headers-service/service"
 	"github.com/bitcoin-sv/block-headers-service/transports/p2p/connmgr"
+	"github.com/bitcoin-sv/block-headers-service/transports/p2p/p2psync"
 	"github.com/bitcoin-sv/block-headers-service/transports/p2p/peer"
 	"github.com/rs/zerolog"
 )
@@ -37,6 +40,55 @@ func VerifNewServer(banDuration time.Duration, log *zerolog.Logger) *VerifServer
 		log:         log,
 	}
 }
+
+// VerifNewInboundServer builds what newServer builds minus listeners and connection manager:
+// enough for the real inbound peer path (inboundPeerConnected -> peer.Peer -> serverPeer
+// callbacks) with the real sync manager over the given services. The sync manager is started.
+func VerifNewInboundServer(svc *service.Services, peers map[*peer.Peer]*peer.SyncState, p2pCfg *config.P2PConfig,
+	params *chaincfg.Params, log *zerolog.Logger) (*VerifServer, error) {
+	s := &server{
+		startupTime:       time.Now().Unix(),
+		chainParams:       params,
+		addrManager:       addrmgr.New(func(string) ([]net.IP, error) { return nil, nil }, log),
+		newPeers:          make(chan *serverPeer, config.MaxPeers),
+		donePeers:         make(chan *serverPeer, config.MaxPeers),
+		banPeers:          make(chan *peer.Peer, config.MaxPeers),
+		query:             make(chan interface{}),
+		relayInv:          make(chan relayMsg, config.MaxPeers),
+		broadcast:         make(chan broadcastMsg, config.MaxPeers),
+		quit:              make(chan struct{}),
+		peerHeightsUpdate: make(chan updatePeerHeightsMsg),
+		timeSource:        config.TimeSource,
+		wireServices:      defaultServices,
+		p2pConfig:         p2pCfg,
+		log:               log,
+	}
+	sm, err := p2psync.New(&p2psync.Config{
+		PeerNotifier:              s,
+		ChainParams:               params,
+		DisableCheckpoints:        true,
+		MaxPeers:                  config.MaxPeers,
+		MinSyncPeerNetworkSpeed:   config.MinSyncPeerNetworkSpeed,
+		BlocksForForkConfirmation: p2pCfg.BlocksForForkConfirmation,
+		Logger:                    log,
+		Services:                  svc,
+		Checkpoints:               config.Checkpoints,
+	}, peers)
+	if err != nil {
+		return nil, err
+	}
+	s.syncManager = sm
+	sm.Start()
+	return s, nil
+}
+
+// VerifInboundPeerConnected is what connmgr's OnAccept is wired to.
+func VerifInboundPeerConnected(s *VerifServer, conn net.Conn, log *zerolog.Logger) {
+	s.inboundPeerConnected(conn, log)
+}
+
+// VerifStopInboundServer stops the sync manager started by VerifNewInboundServer.
+func VerifStopInboundServer(s *VerifServer) { s.syncManager.Stop() }
 
 // VerifNewPeerState is the literal from peerHandler.
 func VerifNewPeerState() *VerifPeerState {
